@@ -160,10 +160,10 @@ PROPS.update({
     level_note='Trusted: Lean kernel + standard axioms; SystemTime::elapsed modelled as exact ns difference under an interposed CLOCK_REALTIME.',
  ),
  'C08': dict(
-    oracle='C08',
-    gens=lambda seed, th: [['upd', seed, 100000 if th else 3000]],
-    relevant=lambda c: kind(c) == 'upd',
-    project=proj_upd,
+    oracle='C08', also=['C13'],
+    gens=lambda seed, th: [['upd', seed, 100000 if th else 3000], ['poll', seed, 20000 if th else 2000]],
+    relevant=lambda c: kind(c) in ('upd', 'poll'),
+    project=lambda c: proj_upd(c) if kind(c) == 'upd' else proj_poll_c13(c),
     nontrivial=lambda c: {'len3', 'statusChange', 'hasSync'} <= c.tags,
     rule="histories (length 1..60) over the eight message kinds with run-lengths, first synchronised report early/late/never, fed through the real process_messages loop over a real mpsc channel into a recording ShmWrite sink; non-trivial = length >= 3, >= 1 status change, >= 1 synchronised report",
     trusted_base=DAEMON_TB,
@@ -172,10 +172,10 @@ PROPS.update({
     level_note='Trusted: Lean kernel + standard axioms; mpsc FIFO; the bound/class of each report is taken from the implementation itself so that C08 is independent of C07/C10.',
  ),
  'C09': dict(
-    oracle='C09',
-    gens=lambda seed, th: [['upd', seed, 100000 if th else 3000]],
-    relevant=lambda c: kind(c) == 'upd',
-    project=proj_upd,
+    oracle='C09', also=['C13'],
+    gens=lambda seed, th: [['upd', seed, 100000 if th else 3000], ['poll', seed, 20000 if th else 2000]],
+    relevant=lambda c: kind(c) in ('upd', 'poll'),
+    project=lambda c: proj_upd(c) if kind(c) == 'upd' else proj_poll_c13(c),
     nontrivial=lambda c: 'trustTemptation' in c.tags,
     rule="same histories as C08; non-trivial = the history has a prefix without any synchronised report that ends in a FreeRunning-class outcome (leap 3, stale, in-grace silence or PHC failure), i.e. the situation in which trust could be advertised without a measurement",
     trusted_base=DAEMON_TB,
@@ -285,10 +285,11 @@ PROPS.update({
 })
 
 PROPS['C01'] = dict(
-    oracle='C01',
+    oracle='C01', also=['C02'],
     lean_modules=['ClockBound.Properties.C01'],
-    gens=lambda seed, th: [['worldgen', seed, 30000 if th else 1200]],
-    relevant=lambda c: kind(c) == 'world',
+    gens=lambda seed, th: [['worldgen', seed, 30000 if th else 1200], ['slgen', seed, 5000 if th else 300], ['slxgen']],
+    relevant=lambda c: kind(c) in ('world', 'sl', 'slx'),
+    require={'ann': 'adequate'},
     nontrivial=lambda c: 'trusted' in c.tags and 'tight' in c.tags,
     shrink=True,
     rule="seeded worlds: piecewise-linear realtime and monotonic clocks (1-5 segments, rate errors up to exactly the configured drift budget, both signs), realtime offset up to +-50 ms; histories of 3-40 events: polls (as-of read, reply after 0..2.5 s, handled after 0..1 ms) with reports made valid by construction (tight in half of the cases: offset word = true offset, dispersion = rounding remainder), both offset signs, leap 3 / unknown / stale / future reports, silences with either grace flag, daemon restarts over the same segment, PHC terms; client queries just after a publication, at 5 s -1/0/+1 ns, tens of seconds, ~1000 s and beyond void-after, with 0..3 s between the realtime and the monotonic read. The real ShmUpdater, ShmWriter, ShmReader and ClockBoundClient run under interposed clocks; the Lean driver recomputes the clocks exactly, CHECKS the hypotheses of C01 on the generated history (cases violating them are `na`), and evaluates containment on the implementation's intervals. non-trivial = a trusted status is returned while true time lies in the outer 10% of the interval (tags trusted+tight)",
